@@ -917,6 +917,8 @@ type Goal struct {
 	// which a phi's incoming value arrives)
 	edgeCond ssa.Value
 	edgePol  bool
+	// assume: branch conditions known on the path along which the goal is asked (PATH engine)
+	assume []PathCond
 }
 
 type ProofResult struct {
@@ -1003,6 +1005,13 @@ func (pr *Prover) prove1(at ssa.Instruction, g Goal) ProofResult {
 	if g.edgeCond != nil {
 		pr.condFacts(fs, g.edgeCond, g.edgePol, "edge condition")
 		pr.nilEdgeFacts(fs, g.edgeCond, g.edgePol)
+		pr.secondPass(fs)
+	}
+	if len(g.assume) > 0 {
+		for _, pc := range g.assume {
+			pr.condFacts(fs, pc.Cond, pc.Val, "path condition")
+			pr.nilEdgeFacts(fs, pc.Cond, pc.Val)
+		}
 		pr.secondPass(fs)
 	}
 	gr := newGraph(fs.facts)
